@@ -167,3 +167,29 @@ func setPairLinks(s *sim.SessSim, p *sim.Pair, fs *sim.FateScript) {
 }
 
 func keyLenFor(c string) int { return wire.KeyLen(c) }
+
+// runPairUntilComplete is bounded liveness for a session pair: run until the
+// fault scripts are used up (however long retransmission back-off stretches a
+// script counted in datagrams, up to 6 h), then demand completion within the
+// bound. errScriptUnfinished means the premise (faults over) was never met.
+func runPairUntilComplete(p *sim.Pair, s *sim.SessSim, faultsEnd int64, segs int64, ivSum int) error {
+	bound := func(from int64) int64 { return from + 2*faultsEnd + 360_000 + (segs+10)*3*int64(ivSum+100) }
+	err := p.Run(max(faultsEnd, 1_000), false)
+	for err == nil && !p.Complete() && !s.ScriptsDone() && s.Now() < 6*3600_000 {
+		err = p.Run(s.Now()+600_000, false)
+	}
+	if err != nil || p.Complete() {
+		return err
+	}
+	if !s.ScriptsDone() {
+		return errScriptUnfinished
+	}
+	end := bound(max(s.Now(), faultsEnd))
+	err = p.Run(end, false)
+	if err == nil && !p.Complete() {
+		a0, r0, t0 := p.Progress(0)
+		a1, r1, t1 := p.Progress(1)
+		err = fmt.Errorf("transfer did not complete: A->B %d accepted / %d read / %d total, B->A %d/%d/%d; faults over since %d ms, now %d ms", a0, r0, t0, a1, r1, t1, faultsEnd, s.Now())
+	}
+	return err
+}
